@@ -37,7 +37,9 @@ DATETIMES = ["2020-01-01T00:00:00Z", "2019-07-16T19:15:00Z", "2021-12-31T23:59:5
 B64 = ["aGVsbG8=", "", "AA==", "QUJD", "/+8=", "aGVsbG8gd29ybGQ=", "AAECAwQFBgc=", "YWJjZA=="]
 INTS = [0, 1, 22, 443, 65535, -1, 12345678901234567890, "22", "0", "-1", "65535"]
 BOOLS = [True, False, "true", "false", "True", "FALSE", "tRuE"]
-ANYS = [None, "x", 5, True, ["a", 1], {"k": "v"}, {"Ref": "P1"}, "2012-10-17", "10.0.0.0/8", [], {}]
+ANYS = [None, "x", 5, True, ["a", 1], {"k": "v"}, {"Ref": "P1"}, "2012-10-17", "10.0.0.0/8", [], {},
+        # text that is a JSON string literal, once and twice encoded (F29: each validation peeled one layer of quotes)
+        '"x"', '"\\"x\\""', '"\\"1\\""', '"\\"true\\""', '["\\"x\\""]', '{"a": "\\"2020-01-01\\""}', '"\\"\\\\\\"x\\\\\\"\\""']
 
 
 class Gen:
@@ -148,7 +150,8 @@ class Gen:
         if k == "Mixed":
             return [r.choice(STRS), r.choice([1, 2]), self.fn()]
         if k == "Json":
-            return r.choice(["{\"a\": \"b\"}", "[1, 2]", "{bad json"])
+            return r.choice(["{\"a\": \"b\"}", "[1, 2]", "{bad json", '"x"', '"\\"x\\""', '"\\"1\\""', '"\\"true\\""', '["\\"x\\""]',
+                             '{"a": "\\"2020-01-01\\""}', '"\\"\\\\\\"x\\\\\\"\\""', '"10.0.0.0/8"', '"[1]"'])
         raise ValueError(k)
 
     # ---- types
